@@ -54,7 +54,7 @@ def dx (lo hi : K) (n : Nat) : K := (hi - lo) / (n : K)
 def centre (lo hi : K) (n : Nat) (i : Nat) : K := ((i : K) + half) * dx lo hi n + lo
 
 /-- all midpoints of an axis -/
-def centres (lo hi : K) (n : Nat) : List K := (List.range n).map (centre lo hi n)
+def centreList (lo hi : K) (n : Nat) : List K := (List.range n).map (centre lo hi n)
 
 /-- lower face of cell `i` as the volume code computes it: `rs - 0.5 * dr` -/
 def cellLo (lo hi : K) (n : Nat) (i : Nat) : K := centre lo hi n i - half * dx lo hi n
